@@ -174,21 +174,24 @@ def run(ctx):
 
     # ------------------------------------------------------------------ C13-export-parse
     ctx.rule("C13-export-parse", "(rename a b) is parsed as ExportSpec::Rename(internal a, external b)")
-    tes = fb.find("parser::parser::Parser::transform_export_spec")
-    pe = Prov(tes)
-    order = {b: i for i, b in enumerate(tes.rpo())}
-    for b, i, s, adt, v in mir.aggregates(tes, None, "ExportSpec"):
-        if v == "Rename":
-            def next_rank(o):
-                ranks = [order.get(bb, -1) for bb, tt in tes.calls()
-                         if callee_matches(tt, "Iterator>::next") and ("call", bb, callee(tt)) in pe._all_roots(o)]
-                return ranks
-            r0 = pe_next_blocks(tes, pe, s["rv"]["ops"][0], order)
-            r1 = pe_next_blocks(tes, pe, s["rv"]["ops"][1], order)
-            ctx.inst("C13-export-parse", "Rename", {"first_from_next@": r0, "second_from_next@": r1})
-            if not r0 or not r1 or not (max(r0) < min(r1)):
-                ctx.report("C13-export-parse", "Rename/order", "ExportSpec::Rename fields are not filled from the 2nd and "
-                           "3rd list elements in order", where_of(tes))
+    # a library definition with (export d1 (rename d2 d3)) through the crate's own lexer and parser: the export specification is
+    # Rename(internal d2, external d3); the dataflow shape of transform_export_spec only when the parser cannot be followed
+    from . import readtables as _rt13
+    kx = _rt13.rule_keywords(ctx, "C13-export-parse", only={"define-library"})
+
+    def _export_shape():
+        tes = fb.find("parser::parser::Parser::transform_export_spec")
+        pe = Prov(tes)
+        order = {b: i for i, b in enumerate(tes.rpo())}
+        for b, i, s, adt, v in mir.aggregates(tes, None, "ExportSpec"):
+            if v == "Rename":
+                r0 = pe_next_blocks(tes, pe, s["rv"]["ops"][0], order)
+                r1 = pe_next_blocks(tes, pe, s["rv"]["ops"][1], order)
+                ctx.inst("C13-export-parse", "Rename", {"first_from_next@": r0, "second_from_next@": r1})
+                if not r0 or not r1 or not (max(r0) < min(r1)):
+                    ctx.report("C13-export-parse", "Rename/order", "ExportSpec::Rename fields are not filled from the 2nd and "
+                               "3rd list elements in order", where_of(tes))
+    ctx.guarded("C13-export-parse", kx.get("define-library") is not None, _export_shape)
     ctx.floor("C13-export-parse", 1)
 
     # ------------------------------------------------------------------ C13-import-copies
